@@ -133,6 +133,12 @@ def gen_c11_spec(rng: random.Random) -> Dict[str, Any]:
         sends.insert(0, {"tok": "prime", "task": "t_async", "beh": [{"dur": [], "out": "raise:ValueError", "value": 0}], "labels": {},
                          "at": 0, "primer": True})
         meta["prime"] = {"mr_kind": "absent", "mr": 0, "ro_kind": "absent"}
+    elif rng.random() < 0.1 and not spec["backend"].get("stock") and sends[0]["task"] != "t_model":
+        # a caller-chosen id (an idempotency key) used for a second call of the task once the first call is through
+        first_ = sends[0]
+        first_["repeated"] = True
+        first_["beh"] = first_["beh"] + [dict(b) for b in first_["beh"]]
+        sends.append(dict(first_, late=True, at=12.0, repeat_of=first_["tok"], repeated=False))
     elif empty_id:
         # a task id that happens to be falsy (the caller chose it): an id like any other
         sends[0]["tok"] = ""
@@ -198,7 +204,15 @@ def oracle_c11(rr: Any, spec: Dict[str, Any]) -> "tuple[List[Violation], int]":
     lost = {e["task_id"] for e in tr if e["k"] == "kick_lost"}
     for send in spec["client_sends"]:
         tok = send["tok"]
+        if send.get("repeat_of"):
+            continue  # judged together with the first call that used this id
         want = model(spec, send)
+        if send.get("repeated"):
+            # the same id is used for a second call after the first one was through: its executions go on in the
+            # behaviour list where the first call stopped, with retry counting of their own
+            rest = send["beh"][want["execs"]:] or send["beh"][-1:]
+            want2 = model(spec, dict(send, beh=rest))
+            want = {"execs": want["execs"] + want2["execs"], "stored": want["stored"] + want2["stored"], "calls": 2}
         got = bytok[tok]
         checked += 1
         n = len(got["start"])
@@ -206,7 +220,7 @@ def oracle_c11(rr: Any, spec: Dict[str, Any]) -> "tuple[List[Violation], int]":
             v.append(Violation("too-many-executions", f"{tok}: executed {n} times, bound {want['execs']} (labels {safe_json(send['labels'])}, retry cfg {spec['retry']})"))
         elif n < want["execs"]:
             v.append(Violation("too-few-executions", f"{tok}: executed {n} times, expected {want['execs']} (labels {safe_json(send['labels'])}, retry cfg {spec['retry']})"))
-        if len(got["kick"]) != max(n, 1):
+        if len(got["kick"]) != max(n, want.get("calls", 1)):
             v.append(Violation("kick-count", f"{tok}: {len(got['kick'])} sends for {n} executions"))
         stored = ["err" if e["is_err"] else "ok" for e in got["set"]]
         if tok in lost:
@@ -267,6 +281,9 @@ def oracle_c11(rr: Any, spec: Dict[str, Any]) -> "tuple[List[Violation], int]":
                 break
         retries_seen = [e["labels"].get("_retries") for e in got["pre"]]
         want_r = [None] + list(range(1, len(retries_seen)))
+        if send.get("repeated"):
+            k1 = model(spec, send)["execs"]
+            want_r = ([None] + list(range(1, k1))) + ([None] + list(range(1, len(retries_seen) - k1)) if len(retries_seen) > k1 else [])
         if retries_seen != want_r:
             v.append(Violation("retry-counter", f"{tok}: _retries labels seen {retries_seen}, expected {want_r}"))
         for bm in kicked[tok]:
